@@ -12,6 +12,8 @@ open OPM OPM.Wire OPM.ArgRegex
   `ac <ex> <ad> <s>` · `acold <ex> <ad> <s>`   → `none` | `m <option>`
   `ng <pattern>` → list · `gu|ge|ga|guold <pattern>` → `ok <list>` | `err:ValueError`
   `astn|astno <nn> <io> <units> <ast>` · `astc <ex> <ad> <ast>` → `same` | `differs` (parsed pattern vs model AST)
+  `pu <tag units> <pattern>` → `ok <list>` | `err:ValueError` (published command units) · `ru <default|Z> <pattern>` →
+  `ok <list>` | `None` | `err:ValueError` (units of the paired process value)
   `classes` → code points of `\s`, of `re.escape`'s specials, of `[0-9]`, of the group-name characters -/
 
 def decList (s : String) : Option (Option (List Str)) :=
@@ -110,6 +112,18 @@ def step (_ : Unit) (line : String) : Unit × String :=
     match decList ex, decList ad, decodeAst a with
     | some ex, some ad, some a => if a = astCategorical (lst ex) (lst ad) then "same" else "differs"
     | _, _, _ => "bad-op"
+  | ["pu", tu, p] =>
+    match decList tu, decodeStr p with
+    | some tu, some p => showList (publishedUnits (lst tu) p.toList)
+    | _, _ => "bad-op"
+  | ["ru", d, p] =>
+    match decList d, decodeStr p with
+    | some d, some p =>
+      match readingUnits d p.toList with
+      | none => "err:ValueError"
+      | some none => "None"
+      | some (some l) => "ok\t" ++ encList l
+    | _, _ => "bad-op"
   | ["classes"] =>
     codePoints isSpace ++ "\t" ++ codePoints isSpecial ++ "\t" ++ codePoints isDigit ++ "\t" ++ codePoints isWord
   | _ => "bad-op")
